@@ -104,11 +104,27 @@ func c02Model(h *HistSys, hist []Op, w *world.World) (*Finding, string) {
 	dead := map[string]bool{}     // uid -> pod deleted or finished
 	known := map[string]bool{}    // uid -> the IPAM has been told (event delivered, or a resync ran after the death)
 	log := obsLog(w)
+	replicas := h.Replicas
+	alive := map[int]bool{} // identity classes: is the pod with this index currently alive
+	// endIdentityReservations: an immutable identity's reservation may legitimately end whenever the pod is dead while the app is
+	// absent or scaled to or below its index (galaxy re-evaluates at event handling and resync; be permissive about when)
+	endIdentityReservations := func() {
+		if never || dp {
+			return
+		}
+		for i := range held {
+			if !alive[i] && (replicas < 0 || replicas <= i) {
+				delete(held, i)
+			}
+		}
+	}
 	for n, o := range log {
 		isLast := n == len(log)-1
 		switch o.Op.Kind {
 		case "delete", "finish":
 			dead[o.EventUID] = true
+			alive[o.Op.A] = false
+			endIdentityReservations()
 		case "deliver":
 			if dead[o.EventUID] {
 				known[o.EventUID] = true
@@ -120,18 +136,18 @@ func c02Model(h *HistSys, hist []Op, w *world.World) (*Finding, string) {
 		}
 		switch o.Op.Kind {
 		case "scale", "deleteapp":
+			if o.Op.Kind == "deleteapp" {
+				replicas = -1
+			} else {
+				replicas = o.Op.A
+			}
+			endIdentityReservations()
 			if never {
 				break
 			}
 			if dp {
 				if o.Op.Kind == "deleteapp" || o.Op.A < len(appHeld) {
 					appHeld = map[string]bool{}
-				}
-			} else {
-				for i := range held {
-					if o.Op.Kind == "deleteapp" || o.Op.A <= i {
-						delete(held, i)
-					}
 				}
 			}
 		case "apirelease":
@@ -190,6 +206,8 @@ func c02Model(h *HistSys, hist []Op, w *world.World) (*Finding, string) {
 						Detail: fmt.Sprintf("%s: %s was bound with %s before and nothing ended that reservation, now bound with %s", histString(hist), h.pod(o.Op.A).Name, prev, x)}, ""
 				}
 				held[o.Op.A] = x
+				alive[o.Op.A] = true
+				endIdentityReservations()
 			}
 		}
 	}
